@@ -56,7 +56,7 @@ def aapply_targets(ops):
 
 HANDLES = [T(AF + '__init__'), T(AF + '__del__'), T(ABD + '_wrap'), T(ABD + '_add_int'), T(ABD + 'true'), T(ABD + 'false')]
 AOPS = [T(AF + '_apply', variant='and', args={'op': 'op:and'}), T(AF + '_apply', variant='not', args={'op': 'op:not'}),
-        T(AF + '__invert__'), T(AF + '__and__'), T(AF + '__or__'), T(AF + 'implies'), T(AF + 'equiv'), T(AF + '__eq__'), T(AF + '__ne__')]
+        T(AF + '__invert__'), T(AF + '__and__'), T(AF + '__or__'), T(AF + 'implies'), T(AF + 'equiv'), T(AF + '__eq__'), T(AF + '__ne__'), T(AF + '__le__'), T(AF + '__lt__')]
 AVIEWS = [T(ABD + 'succ'), T(AF + 'low'), T(AF + 'high'), T(AF + 'var'), T(AF + 'level'), T(AF + 'negated'), T(AF + 'ref')]
 
 ARITY = [T('dd._utils.assert_operator_arity', variant=o, args={'op': 'op:' + o, 'diagram_type': 'op:bdd'})
@@ -70,6 +70,9 @@ IMAGE = [T('dd.bdd._image', variant='image', args={'umap': 'dict:int->int', 'vma
          T('dd.bdd._image', variant='preimage', args={'umap': 'none', 'vmap': 'dict:int->int'}),
          T('dd.bdd._image_root', variant='image', args={'umap': 'dict:int->int', 'vmap': 'none'}),
          T('dd.bdd._image_root', variant='preimage', args={'umap': 'none', 'vmap': 'dict:int->int'})]
+
+AWRAP = [T(ABD + 'add_var'), T(ABD + 'var_at_level'), T(ABD + 'level_of_var'), T(ABD + 'collect_garbage'), T(ABD + 'incref'), T(ABD + 'decref'),
+         T(ABD + 'find_or_add')]
 
 TARGETS = {
     'C01': CORE + apply_targets(['not', 'and', 'or', 'xor', 'implies', 'equiv', 'diff', 'ite']) + AOPS
@@ -91,9 +94,9 @@ TARGETS = {
     'C08': HANDLES + [T(ABD + 'var'), T(ABD + 'ite'), T(ABD + 'quantify'), T(ABD + 'forall'), T(ABD + 'exist'), T(ABD + 'succ'),
                       T(AF + 'low'), T(AF + 'high')] + aapply_targets(['not', '&', 'ite', 'forall']) + AOPS[:7]
            + [T(B + '_init_terminal'), T(B + 'add_var')]   # declarations keep every count
-           + EXTREF + [T(B + '_add_int'), T(ABD + '__contains__')],
+           + EXTREF + [T(B + '_add_int'), T(ABD + '__contains__')] + AWRAP,
     'C09': PLUMBING + [T(B + 'ite', B + 'ite!body'), T(B + 'var', B + 'var!body'), T(B + 'rename', B + 'rename!body'),
-                       T('dd.bdd.copy_bdd', variant='two-managers')],
+                       T('dd.bdd.copy_bdd', variant='two-managers'), T(ABD + 'find_or_add')] + IMAGE[2:],
     'C10': [T(B + 'is_essential'), T(B + '_support'), T(B + 'support', B + 'support!proved:names', variant='names'),
             T(B + 'support', B + 'support!proved:levels', variant='levels')],
     'C11': [T('dd.bdd._copy_bdd', variant='two-managers'), T('dd.bdd.copy_bdd', variant='two-managers'),
